@@ -31,6 +31,7 @@ func properties() map[string]*PropertySpec {
 		Harnesses: []HarnessSpec{
 			c01("H_C01_bind", "bind ok", "message ID 0..2^31-1, DN and password unbounded strings, <= 1 control of each of 12 kinds", ""),
 			c01("H_C01_search", "search ok", "scope 0..2, deref 0..3, limits 0..2^31-1, <= 3 attributes, <= 1 control", ""),
+			c01("H_C01_searchfilter", "search ok", "filter: present, or an attribute-value assertion (=, >=, <=, ~=) with a value of 1..2 arbitrary bytes; the expected text is go-ldap's DecompileFilter of that node (exact engine model for these shapes, cross-checked natively)", ""),
 			c01("H_C01_modify", "modify ok", "<= 1 change x <= 2 values, strings < 12 bytes, <= 1 control", ""),
 			c01("H_C01_modify2", "modify ok", "<= 2 changes x <= 2 values, strings < 12 bytes", "thorough"),
 			c01("H_C01_add", "add ok", "<= 2 attributes x <= 2 values, <= 1 control", ""),
@@ -152,7 +153,7 @@ func properties() map[string]*PropertySpec {
 		Functions: "(*Server).Run (accept loop), Run$1 and its deferred recover/teardown, (*conn).serveRequests, serveRequests$1 and its recover, (*Mux).serve, (*ResponseWriter).Write",
 		Outside:   []string{"one fault per scenario, one victim and one bystander connection", "a client that stops reading is covered under C11 (its handler blocks in Write)", "panics in gldap's own decoding are excluded by C02"},
 		Harnesses: []HarnessSpec{
-			eng("H_C07_faults", "faults", "8 fault kinds (handler panic on a request goroutine, in the StartTLS / unbind / default-route handler, connection reset, malformed frame, failed write, temporary Accept error) x spawn-order schedules", ""),
+			eng("H_C07_faults", "faults", "10 fault kinds (handler panic on a request goroutine, in the StartTLS / unbind / default-route handler, connection reset, connection reset with a handler still running that answers only after the bystander was served, malformed frame, failed write, client not reading, temporary Accept error) x spawn-order schedules", ""),
 		}})
 	add(&PropertySpec{ID: "C09",
 		Functions: "(*Server).Run (accept loop, connID/localConnID), Run$1, newConn, (*Request).ConnectionID, OnClose callback",
@@ -265,6 +266,8 @@ func properties() map[string]*PropertySpec {
 				Bound: "2..3 concurrent handlers x 2 frames each, plain or after a StartTLS upgrade; spawn-order schedules + <= 1 preemption at a synchronisation point; per trace the partial-order queries: can two bufio calls of different goroutines coincide? can a foreign bufio call fall between a Write and its Flush?"},
 			{Name: "H_C05_upgrade_inflight", Reach: []string{"upgrade inflight"}, PO: poC05,
 				Bound: "a StartTLS request pipelined behind a request whose handler may still be in flight and followed by another request; spawn-order schedules; the same two partial-order queries per bufio.Writer object (Write, Flush, Reset)"},
+			{Name: "H_C05_shutdown_notice", Native: true, Reach: []string{"shutdown notice"}, PO: poC05,
+				Bound: "1..2 handlers in flight when the shutdown context is cancelled between two reads: the notice of disconnection vs. the handlers' responses; spawn-order schedules; the same partial-order queries"},
 			nat("H_C05_step", "step", "one Write from an empty buffer and a free lock, write succeeds or fails, strings < 24 bytes", ""),
 		}})
 	poRaces := func(p *PathResult, po *PO) []POFinding {
@@ -283,6 +286,8 @@ func properties() map[string]*PropertySpec {
 			{Name: "H_C15_server", Reach: []string{"workload"}, PO: poRaces, Bound: "2 connections, pipelined requests with concurrent writes, optional StartTLS upgrade, 2 Ready pollers, early and final Stop, spawn-order schedules; per trace every conflicting pair of tracked accesses is a race query (can the two clocks coincide?)"},
 			{Name: "H_C05_upgrade_inflight", Reach: []string{"upgrade inflight"}, PO: poC05,
 				Bound: "the connection's bufio.Writer objects (library state owned by gldap): StartTLS pipelined behind an in-flight handler; can two method calls (Write, Flush, Reset) on one object from different goroutines coincide?"},
+			{Name: "H_C05_shutdown_notice", Reach: []string{"shutdown notice"}, PO: poC05,
+				Bound: "the connection's bufio.Writer: notice of disconnection written by the read loop while handlers are still writing"},
 			{Name: "H_TD_C15_directory", Pkg: "testdirectory", Reach: []string{"directory workload"}, PO: poRaces,
 				Tweak: func(c *HarnessCfg, tier string) { c.ExtraPkgs["golang.org/x/exp/slices"] = true },
 				Bound: "one served operation (bind, user search, add, modify, delete) concurrently with one of the 8 Set*/getter calls"},
@@ -294,6 +299,8 @@ func properties() map[string]*PropertySpec {
 			{Name: "H_C02_readRequest", Native: true, Tiers: "quick", Reach: []string{"returned", "decoded"},
 				Bound: "symbolic wire tree: depth <= 5, children: envelope <= 4, request <= 9, controls <= 1 x <= 4 children, lists <= 2-3; control value re-decoded as a symbolic tree of depth 3, width 2; every node's class/type/tag/content unconstrained",
 				Tweak: func(c *HarnessCfg, tier string) { c.DecodeWidths = "def=2" }},
+			{Name: "H_C02_truncated", Native: true, Reach: []string{"truncated"},
+				Bound: "a stream of 0..2 arbitrary bytes followed by EOF (not a complete element): read error, no panic; the bytes are visible to gldap through bufio.Reader.Peek"},
 			{Name: "H_C02_readRequest_wide", Native: true, Tiers: "thorough", Reach: []string{"returned", "decoded"},
 				Bound: "as quick, with <= 2 controls per message and control values re-decoded at width 3",
 				Tweak: func(c *HarnessCfg, tier string) { c.DecodeWidths = "def=3"; c.MaxPaths = 600000 }},
